@@ -170,4 +170,70 @@ theorem tie_W_PhantomObstacle (o : Phantom) : Gen.W_PhantomObstacle o = encPhant
 
 theorem tie_W_GoalState (g : Goal) : Gen.W_GoalState g.state g.lanelets = encGoal g := rfl
 
+
+/-! ## structural tables: which fields the writer sets, which the reader touches, what the descriptors declare
+
+  `Gen.writerTable` (a by-product of the symbolic execution of every builder), `Gen.readerTable` (extracted from every
+  `XxxFactory`) and `Gen.descriptor` (the serialized descriptors in the *_pb2.py files) are finite tables; the statements below
+  are checked over the COMPLETE tables by evaluation (`decide`), which is a proof for these tables. -/
+
+def tblGet (t : List (String × List (String × String))) (m f : String) : Option String := (t.lookup m).bind (·.lookup f)
+
+def labelOf (m f : String) : Option String := ((Gen.descriptor.lookup m).bind (·.lookup f)).map (·.1)
+
+/-- optional fields the reader reads WITHOUT a HasField test although the writer sets them on some paths only: an unset
+    sign / light position reads as (0, 0) (normSign / normLight; explicit positions are part of the domain), the last member of
+    a oneof is the reader's `else` branch -/
+def readDefaulted : List (String × String) :=
+  [("TrafficSign", "position"), ("TrafficLight", "position"), ("Shape", "shape_group"),
+   ("TrafficSignElement", "puerto_rico_element_id")]
+
+/-- (i) every field a builder of the writer sets is read by the factory of the same message type -/
+theorem T02_written_is_read :
+    (Gen.writerTable.all fun row => row.2.all fun fk =>
+      tblGet Gen.readerTable row.1 fk.1 == some "read" || tblGet Gen.readerTable row.1 fk.1 == some "read?") = true := by
+  decide +kernel
+
+/-- (ii) a field the reader reads without a HasField test is repeated, or set by the writer on every path, or one of the
+    declared defaulted reads (the message types without a translated builder are left out) -/
+theorem T02_unguarded_read_is_always_written :
+    (Gen.readerTable.all fun row => (Gen.writerTable.lookup row.1).isNone || row.2.all fun fk =>
+      fk.2 != "read" || labelOf row.1 fk.1 == some "repeated" || tblGet Gen.writerTable row.1 fk.1 == some "set"
+        || readDefaulted.contains (row.1, fk.1)) = true := by
+  decide +kernel
+
+/-- (iii-a) a field the writer sets on some paths only is `optional` in the format and the reader tests it with HasField
+    (absent optional data stays absent), the declared defaulted reads excepted -/
+theorem T02_optional_guarded :
+    (Gen.writerTable.all fun row => row.2.all fun fk =>
+      fk.2 != "set?" || (labelOf row.1 fk.1 == some "optional"
+        && (tblGet Gen.readerTable row.1 fk.1 == some "read?" || readDefaulted.contains (row.1, fk.1)))) = true := by
+  decide +kernel
+
+/-- (iii-b) every `required` field of a message type the writer builds is set on every path -/
+theorem T02_required_always_set :
+    (Gen.writerTable.all fun row => ((Gen.descriptor.lookup row.1).getD []).all fun d =>
+      d.2.1 != "required" || row.2.lookup d.1 == some "set") = true := by
+  decide +kernel
+
+/-- the optional information the property sentence names: (message, field) -/
+def namedOptionals : List (String × String) :=
+  [("SignalState", "horn"), ("SignalState", "indicator_left"), ("SignalState", "indicator_right"),
+   ("SignalState", "braking_lights"), ("SignalState", "hazard_warning_lights"), ("SignalState", "flashing_blue_lights"),
+   ("SignalState", "time_step"), ("StaticObstacle", "initial_signal_state"), ("DynamicObstacle", "initial_signal_state"),
+   ("TrafficSign", "virtual"), ("TrafficLight", "time_offset"), ("TrafficLight", "direction"), ("TrafficLight", "active"),
+   ("FloatExactOrInterval", "interval"), ("IntegerExactOrInterval", "interval"), ("State", "shape"),
+   ("TimeStamp", "year"), ("TimeStamp", "month"), ("TimeStamp", "day"), ("Environment", "time")]
+  ++ stateFields.map fun f => ("State", f)
+
+/-- (iii-c) every optional piece of information the property names has a field that is written when present and read back
+    under a HasField test; first occurrences and signal series are repeated fields written and read unconditionally -/
+theorem T02_named_optionals :
+    (namedOptionals.all fun mf => labelOf mf.1 mf.2 == some "optional" && tblGet Gen.writerTable mf.1 mf.2 == some "set?"
+        && tblGet Gen.readerTable mf.1 mf.2 == some "read?") = true
+    ∧ ([("TrafficSign", "first_occurrences"), ("StaticObstacle", "signal_series"), ("DynamicObstacle", "signal_series")].all
+        fun mf => labelOf mf.1 mf.2 == some "repeated" && tblGet Gen.writerTable mf.1 mf.2 == some "set"
+          && tblGet Gen.readerTable mf.1 mf.2 == some "read") = true := by
+  constructor <;> decide +kernel
+
 end CR.PBF
